@@ -194,6 +194,43 @@ class SubstModel:
             self.probes['symbol_inside_quoted_string'] = self.probes.get('symbol_inside_quoted_string', 0) + 1
             self.shape.append(('quoted', len(vals), directive))
             return 'keep', [line]
+        if k == 'use_stmt':
+            # a symbol standing for a whole statement, alone on its line (its name may look like a mnemonic in other case)
+            name = op['name']
+            line = op.get('lead', '  ') + name
+            if name not in self.symbols:
+                return None
+            try:
+                final = self.expand(name).strip()
+            except Reject:
+                return 'probe', [line]
+            m = re.fullmatch(r'(\.byte|ldi) (.+)|(nop)', final)
+            if not m:
+                return None
+            try:
+                vals = [0] if m.group(3) else ([1] if m.group(1) == 'ldi' else []) + [self.evaluate(m.group(2)) & 0xFF]
+            except (KeyError, SyntaxError, ValueError, TypeError):
+                return None
+            self.out += vals if not self.mute else [0] * len(vals)
+            self.probes['symbol_stands_for_statement'] = self.probes.get('symbol_stands_for_statement', 0) + 1
+            self.shape.append(('stmt', len(vals), name.lower() in ('nop', 'ldi')))
+            return 'keep', [line]
+        if k == 'use_label':
+            # a symbol standing for a label's name on a label-only line
+            name = op['name']
+            line = f'{name}:'
+            if name not in self.symbols or self.mute:
+                return None
+            try:
+                final = self.expand(name).strip()
+            except Reject:
+                return 'probe', [line]
+            if not re.fullmatch(r'lbl\d+', final) or final in self.consts:
+                return None
+            self.consts[final] = len(self.out)
+            self.probes['symbol_stands_for_label_name'] = self.probes.get('symbol_stands_for_label_name', 0) + 1
+            self.shape.append(('label', 0, final))
+            return 'keep', [line]
         if k == 'use':
             text = op['text']
             directive = op.get('directive', '.byte')
@@ -526,6 +563,25 @@ def make_machine(stats, box):
             self.do({'op': 'define', 'name': y, 'value': str(w)})
             self.do({'op': 'use', 'text': x, 'directive': '.byte'})
             self.do({'op': 'use', 'text': f'{y} + {x}', 'directive': '.byte'})
+
+        @rule(n=st.one_of(name, st.sampled_from(['NOP', 'Nop', 'LDI', 'EMIT'])),
+              body=st.sampled_from(['.byte 7', 'ldi 5', 'nop', '.byte AB', 'ldi $2A', 'ldi AB + 1']),
+              lead=st.sampled_from(['', '  ', '\t']))
+        def idiom_statement_symbol(self, n, body, lead):
+            """#define S <whole statement> / S   (S alone on its line)"""
+            if n not in self.model.symbols:
+                self.do({'op': 'define', 'name': n, 'value': body}, check=False)
+            self.do({'op': 'use_stmt', 'name': n, 'lead': lead})
+
+        @rule(n=st.one_of(name, st.just('ENTRY')), k=st.integers(min_value=0, max_value=3))
+        def idiom_label_symbol(self, n, k):
+            """#define S lbl<k> / S:  / .2byte lbl<k>   (S names the label)"""
+            if n not in self.model.symbols:
+                self.do({'op': 'define', 'name': n, 'value': f'lbl{k}'}, check=False)
+            before = len(self.case['ops'])
+            self.do({'op': 'use_label', 'name': n}, check=False)
+            if len(self.case['ops']) > before:
+                self.do({'op': 'use', 'text': f'lbl{k}', 'directive': '.2byte'})
 
         @rule()
         def mute(self):
